@@ -55,7 +55,8 @@ def one(entry):
 
 
 def main(argv):
-    corpus = json.loads((V / "twins_corpus" / "corpus.json").read_text())
+    cname_ = next((a.split("=")[1] for a in argv if a.startswith("--corpus=")), "corpus.json")
+    corpus = json.loads((V / "twins_corpus" / cname_).read_text())
     extra = V / "twins_corpus" / "excluded.json"
     excluded = json.loads(extra.read_text()) if extra.exists() else {}
     only = [a for a in argv if a.startswith("C")]
@@ -73,7 +74,7 @@ def main(argv):
         for name, pid, verdict, info in res:
             if verdict not in ("ok", "unapplicable"):
                 print(f"  {pid} {verdict:<15} {name:<50} {info}")
-    (V / "twins_corpus" / "last_run.json").write_text(json.dumps([list(r) for r in res], indent=0))
+    (V / "twins_corpus" / ("last_run.json" if cname_ == "corpus.json" else "last_run2.json")).write_text(json.dumps([list(r) for r in res], indent=0))
 
 
 if __name__ == "__main__":
